@@ -92,6 +92,24 @@ pub fn register(m: &mut HashMap<&'static str, OpFn>) {
             subtle::Choice::from(a.boolean(2) as u8),
         ))
     });
+    m.insert("sc.cassign", |a| {
+        use subtle::ConditionallySelectable;
+        let mut x = a.sc(0);
+        x.conditional_assign(&a.sc(1), subtle::Choice::from(a.boolean(2) as u8));
+        sc_out(&x)
+    });
+    m.insert("sc.cswap", |a| {
+        use subtle::ConditionallySelectable;
+        let (mut x, mut y) = (a.sc(0), a.sc(1));
+        Scalar::conditional_swap(&mut x, &mut y, subtle::Choice::from(a.boolean(2) as u8));
+        vec![hex(&x.to_bytes()), hex(&y.to_bytes())]
+    });
+    m.insert("sc.cneg", |a| {
+        use subtle::ConditionallyNegatable;
+        let mut x = a.sc(0);
+        x.conditional_negate(subtle::Choice::from(a.boolean(1) as u8));
+        sc_out(&x)
+    });
     m.insert("sc.index", |a| vec![tint(a.sc(0)[a.int(1) as usize])]);
     m.insert("sc.consts", |_a| {
         vec![
